@@ -19,6 +19,13 @@ RULE = ("Merkle/BIP37: exhaustively every tree size 1..8 (quick) / 1..10 (thorou
         "dropped / duplicated / foreign extra hash, of sampled proofs.  PoW: every exponent 0..35 and 255 x boundary "
         "coefficients, targets 2^k, 2^k+-1, time differentials around TWO_WEEKS/4 and TWO_WEEKS*4 (+-1), random "
         "80-byte headers, header chains with broken links / failing PoW.")
+RULE += ("  Whole blocks: hand-written blocks (struct/hashlib only; legacy-only, segwit-only, mixed, one segwit transaction at "
+         "every position, 1..9/16/17/252/253 transactions, duplicated transactions, ten transaction shapes incl. coinbases, "
+         "taproot, long witness items) through Block.parse from a stream with a consumed prefix and trailing bytes: tx_hashes = "
+         "txs[i].hash() = double-SHA256 of the witness-stripped bytes, validate_merkle_root() true exactly for the consensus "
+         "root of the txids (false for the wtxid root, altered / byte-swapped roots), the same through parse_header(stream/hex) "
+         "+ assigned tx_hashes, the constructor, Tx.parse alone, the block's merkleblock and headers messages; several blocks "
+         "in one stream with in-place edits of tx_hashes.")
 RULE += ("  Reuse: ONE MerkleBlock / Block / HeadersMessage object queried repeatedly with in-place edits of every public "
          "field in between (hashes, flags, total, root; the six header fields; the header list), two MerkleTree / "
          "MerkleBlock objects filled alternately, merkle_root on one list object edited between calls, compact-bits and "
@@ -1112,7 +1119,288 @@ def p_compact_order(seq):
     return None
 
 
-PROPS = {"root_ref": p_root_ref, "proof_complete": p_proof_complete, "proof_complete_spec": p_proof_complete_spec,
+# ------------------------------------------------------------------ whole blocks: every entry point that feeds the Merkle code
+# Transactions are written out by hand (struct only): BIP144 wire bytes and the witness-stripped serialisation whose
+# double-SHA256 is the txid the header's Merkle root commits to (BIP141).  A transaction is the canonical value
+#   [version, [[prev32 (wire order), index, scriptSig bytes, sequence, [witness items]] ...], [[amount, scriptPubKey bytes] ...],
+#    locktime, segwit (0/1)]
+
+def ser_tx(tx):
+    """(wire bytes, witness-stripped bytes) of a structured transaction"""
+    version, ins, outs, locktime, segwit = tx
+    ver = struct.pack("<I", version)
+    vin = _cs(len(ins)) + b"".join(p + struct.pack("<I", i) + _cs(len(ss)) + ss + struct.pack("<I", sq)
+                                   for p, i, ss, sq, _w in ins)
+    vout = _cs(len(outs)) + b"".join(struct.pack("<Q", a) + _cs(len(spk)) + spk for a, spk in outs)
+    lock = struct.pack("<I", locktime)
+    stripped = ver + vin + vout + lock
+    if not segwit:
+        return stripped, stripped
+    wit = b"".join(_cs(len(w)) + b"".join(_cs(len(it)) + it for it in w) for _p, _i, _s, _q, w in ins)
+    return ver + b"\x00\x01" + vin + vout + wit + lock, stripped
+
+
+def header_bytes(fields, root_display):
+    v, p, _m, t, b, n = fields
+    return struct.pack("<I", v) + p[::-1] + root_display[::-1] + struct.pack("<I", t) + b + n
+
+
+def _script_pushes_canonical(s):
+    """True when every push of the script bytes uses the one encoding buidl's Script.raw_serialize would write
+    (1..75 direct, 76..255 OP_PUSHDATA1, 256..520 OP_PUSHDATA2) and the script is not cut inside a push: exactly the
+    scripts whose parse / re-serialise is the identity"""
+    i, n = 0, len(s)
+    while i < n:
+        op = s[i]
+        i += 1
+        if 1 <= op <= 75:
+            ln = op
+        elif op == 76:
+            if i + 1 > n:
+                return False
+            ln = s[i]
+            i += 1
+            if ln < 76:
+                return False
+        elif op == 77:
+            if i + 2 > n:
+                return False
+            ln = s[i] | (s[i + 1] << 8)
+            i += 2
+            if ln < 0x100 or ln > 520:
+                return False
+        elif op == 78:
+            return False
+        else:
+            continue
+        if i + ln > n:
+            return True     # truncated push: Script keeps the raw bytes and writes them back unchanged
+        i += ln
+    return True
+
+
+def _block_eval(fields, root_display, raws, pre, rest):
+    """Block.parse on a stream that holds `pre` (already consumed) | header | count | transactions | rest"""
+    st = BytesIO(pre + header_bytes(fields, root_display) + _cs(len(raws)) + b"".join(raws) + rest)
+    st.read(len(pre))
+    blk = Block.parse(st)
+    return blk, st.read()
+
+
+def p_block_parse(fields, txs, pre, rest, matches):
+    """a whole block (80-byte header | CompactSize count | transactions in BIP144 wire format) through Block.parse:
+    tx_hashes are the txids (double-SHA256 of the witness-stripped serialisation, display order), equal to
+    txs[i].hash(); validate_merkle_root() holds exactly for the header root that is the consensus Merkle root of the
+    txids (not of the wtxids, not an altered root, not the root in the other byte order); the same answers through
+    parse_header + assigned tx_hashes, the Block constructor, Tx.parse of each transaction alone, the merkleblock
+    message of the block (MerkleBlock.parse / is_valid / proved_txs) and the headers message (HeadersMessage.parse)"""
+    from buidl.tx import Tx
+    n = len(txs)
+    sers = [ser_tx(t) for t in txs]
+    raws = [w for w, _s in sers]
+    txids = [h256(s) for _w, s in sers]           # internal order
+    wtxids = [h256(w) for w, _s in sers]
+    ids = [x[::-1] for x in txids]                # display order, what tx_hashes / Tx.hash() hold
+    root = ref_root(txids)[::-1]                  # display order, what Block.merkle_root holds
+    v, pv, _m, t, b, nn = fields
+    want_hdr = [v, pv, root, t, b, nn]
+    hb = header_bytes(fields, root)
+    try:
+        blk, left = _block_eval(fields, root, raws, pre, rest)
+    except Exception as e:
+        return "Block.parse raised on a well-formed block: " + repr(e)
+    if left != rest:
+        return "Block.parse did not stop at the end of the block (bytes after it consumed or transactions left unread)"
+    if _hdr(blk) != want_hdr:
+        return "Block.parse returns a different header"
+    if blk.serialize() != hb or blk.hash() != h256(hb)[::-1]:
+        return "serialize()/hash() of the parsed block are not its 80-byte header / the header's double-SHA256"
+    if blk.txs is None or len(blk.txs) != n or blk.tx_hashes is None or len(blk.tx_hashes) != n:
+        return f"Block.parse of a {n}-transaction block gives {len(blk.txs or [])} txs / {len(blk.tx_hashes or [])} tx_hashes"
+    for i in range(n):
+        if blk.tx_hashes[i] != ids[i]:
+            what = "the wtxid (hash of the bytes with marker, flag and witness)" if blk.tx_hashes[i] == wtxids[i][::-1] else \
+                ("the txid in the other byte order" if blk.tx_hashes[i] == txids[i] else "something else")
+            return (f"Block.parse: tx_hashes[{i}] of a {n}-transaction block is not the txid (double-SHA256 of the "
+                    f"witness-stripped serialisation) but {what}; segwit={txs[i][4]}")
+        try:
+            hi = blk.txs[i].hash()
+        except Exception as e:
+            return f"txs[{i}].hash() raised " + repr(e)
+        if hi != ids[i] or blk.txs[i].id() != ids[i].hex():
+            return f"Block.parse: txs[{i}].hash()/id() is not the txid"
+        if bool(blk.txs[i].segwit) != bool(txs[i][4]):
+            return f"Block.parse: txs[{i}].segwit differs from the wire format of the transaction"
+        if blk.txs[i].serialize() != raws[i]:
+            return f"Block.parse: txs[{i}].serialize() differs from the bytes that were parsed"
+    snap = list(blk.tx_hashes)
+    for k in range(2):
+        try:
+            ok = blk.validate_merkle_root()
+        except Exception as e:
+            return "validate_merkle_root raised on a parsed block: " + repr(e)
+        if ok is not True:
+            return (f"call {k}: validate_merkle_root() = {ok!r} for a parsed {n}-transaction block whose header carries the "
+                    f"consensus Merkle root of its txids")
+        if blk.tx_hashes != snap:
+            return "validate_merkle_root changed tx_hashes"
+    if helper.merkle_root([x[::-1] for x in blk.tx_hashes]) != ref_root(txids):
+        return "merkle_root over the parsed block's tx_hashes differs from the consensus root of the txids"
+    # headers that do NOT commit to the txids
+    bad_roots = []
+    wroot = ref_root(wtxids)[::-1]
+    if wroot != root:
+        bad_roots.append(("the Merkle root of the wtxids", wroot))
+    flip = bytearray(root)
+    flip[(n * 7) % 32] ^= 1 << (n % 8)
+    bad_roots.append(("an altered root", bytes(flip)))
+    if root[::-1] != root:
+        bad_roots.append(("the root in the other byte order", root[::-1]))
+    if n > 1:
+        bad_roots.append(("the first txid", ids[0]))
+        bad_roots.append(("the Merkle root of the txids without the last one", ref_root(txids[:-1])[::-1]))
+    for what, br in bad_roots:
+        if br == root:          # e.g. [a, b, c, c] and [a, b, c] have the same consensus root (CVE-2012-2459 shape)
+            continue
+        try:
+            b2, _left = _block_eval(fields, br, raws, pre, rest)
+            ok = b2.validate_merkle_root()
+        except Exception as e:
+            return f"Block.parse / validate_merkle_root raised for a header carrying {what}: " + repr(e)
+        if b2.tx_hashes != ids:
+            return f"tx_hashes of the parsed block depend on the header root ({what})"
+        if ok is not False:
+            return f"validate_merkle_root() = {ok!r} for a parsed block whose header carries {what}"
+    # ---- parse_header (stream / hex) + tx_hashes assigned; the constructor
+    for how in range(3):
+        if how == 0:
+            h2 = Block.parse_header(BytesIO(hb + rest))
+        elif how == 1:
+            h2 = Block.parse_header(hex=hb.hex())
+        else:
+            h2 = Block(v, pv, root, t, b, nn, txs=list(blk.txs), tx_hashes=[x.hash() for x in blk.txs])
+        if _hdr(h2) != want_hdr or h2.hash() != blk.hash():
+            return "parse_header / constructor: header differs from the one Block.parse returns"
+        if how < 2:
+            if h2.tx_hashes is not None or h2.txs is not None:
+                return "parse_header returns a Block that already has txs / tx_hashes"
+            h2.tx_hashes = list(ids)
+        if h2.validate_merkle_root() is not True:
+            return f"entry {how}: validate_merkle_root() is not True with the txids assigned to a parsed header"
+        if wroot != root:
+            h2.tx_hashes = [x[::-1] for x in wtxids]
+            if h2.validate_merkle_root() is not False:
+                return f"entry {how}: validate_merkle_root() accepts the wtxids under a root over the txids"
+    # ---- every transaction alone
+    for i in range(n if n <= 20 else 3):
+        for raw in (raws[i], sers[i][1]):
+            st = BytesIO(raw + rest)
+            try:
+                tx = Tx.parse(st)
+            except Exception as e:
+                return "Tx.parse raised on a transaction of the block: " + repr(e)
+            if tx.hash() != ids[i] or st.read() != rest:
+                return f"Tx.parse(...).hash() of transaction {i} alone (wire / witness-stripped bytes) is not its txid"
+    # ---- the merkleblock message a full node builds for this block
+    total, _bits, hashes, flags = ref_build(txids, matches)
+    try:
+        mb = MerkleBlock.parse(BytesIO(wire_merkleblock(hb, total, hashes, flags) + rest))
+        ok = mb.is_valid()
+    except Exception as e:
+        return "MerkleBlock.parse / is_valid raised on the merkleblock message of the block: " + repr(e)
+    if _hdr(mb.header) != want_hdr or mb.header.hash() != blk.hash() or mb.total != len(blk.txs):
+        return "merkleblock header / total differ from the parsed block"
+    if ok is not True:
+        return "the merkleblock message of the block does not validate"
+    proved = mb.proved_txs()
+    if proved != [x for x, m in zip(ids, matches) if m]:
+        return "proved_txs of the block's merkleblock differ from the matched txids"
+    if proved != [x for x, m in zip(blk.tx_hashes, matches) if m] or \
+            proved != [x.hash() for x, m in zip(blk.txs, matches) if m]:
+        return "proved_txs of the block's merkleblock are not the parsed block's tx_hashes / txs[i].hash() at the matched positions"
+    # ---- the headers message announcing this block
+    try:
+        hm = network.HeadersMessage.parse(BytesIO(wire_headers([want_hdr]) + rest))
+    except Exception as e:
+        return "HeadersMessage.parse raised: " + repr(e)
+    if len(hm.headers) != 1 or _hdr(hm.headers[0]) != want_hdr or hm.headers[0].hash() != blk.hash():
+        return "the header from HeadersMessage.parse differs from the one from Block.parse"
+    if hm.is_valid() != _ref_chain_valid([want_hdr]) or blk.check_pow() != _ref_chain_valid([want_hdr]):
+        return "HeadersMessage.is_valid / Block.check_pow of the parsed block differ from the reference"
+    try:
+        network.HeadersMessage.parse(BytesIO(_cs(1) + hb + _cs(n) + b"".join(raws)))
+        return "HeadersMessage.parse accepts a header followed by a non-zero transaction count"
+    except RuntimeError:
+        pass
+    except Exception as e:
+        return "HeadersMessage.parse of a header with transactions raised " + type(e).__name__
+    return None
+
+
+def p_block_stream(blocks, rest, seed):
+    """several blocks back to back in ONE stream, parsed one after the other; afterwards every Block object is queried
+    again (shared / class-level state), its tx_hashes edited in place and restored"""
+    import random
+    r = random.Random(seed)
+    exp, raw = [], b""
+    for fields, txs in blocks:
+        sers = [ser_tx(t) for t in txs]
+        txids = [h256(s) for _w, s in sers]
+        root = ref_root(txids)[::-1]
+        raw += header_bytes(fields, root) + _cs(len(sers)) + b"".join(w for w, _s in sers)
+        exp.append(([x[::-1] for x in txids], root, txids))
+    st = BytesIO(raw + rest)
+    got = []
+    for k in range(len(blocks)):
+        try:
+            got.append(Block.parse(st))
+        except Exception as e:
+            return f"Block.parse raised on block {k} of a stream of blocks: " + repr(e)
+        if k and r.random() < 0.5 and got[0].validate_merkle_root() is not True:
+            return f"after parsing block {k} the first block no longer validates"
+    if st.read() != rest:
+        return "parsing the blocks one after the other does not end at the end of the last block"
+    for rounds in range(2):
+        for k, blk in enumerate(got):
+            ids, root, txids = exp[k]
+            if blk.tx_hashes != ids or [x.hash() for x in blk.txs] != ids:
+                return f"round {rounds}: tx_hashes / txs[i].hash() of block {k} of the stream are not its txids"
+            if blk.merkle_root != root or blk.validate_merkle_root() is not True:
+                return f"round {rounds}: block {k} of the stream does not validate against its own root"
+            for other in got:
+                if other is not blk and (other.tx_hashes is blk.tx_hashes or other.txs is blk.txs):
+                    return "two parsed blocks share one tx_hashes / txs list object"
+            # in-place edits, decided by the reference root of the current list
+            cur = blk.tx_hashes
+            for _e in range(4):
+                e = r.randrange(4)
+                if e == 0 and len(cur) > 1:
+                    i, j = r.sample(range(len(cur)), 2)
+                    cur[i], cur[j] = cur[j], cur[i]
+                elif e == 1:
+                    cur.append(cur[-1])
+                elif e == 2 and len(cur) > 1:
+                    cur.pop(r.randrange(len(cur)))
+                else:
+                    i = r.randrange(len(cur))
+                    h = bytearray(cur[i])
+                    h[r.randrange(32)] ^= 1 << r.randrange(8)
+                    cur[i] = bytes(h)
+                want = ref_root([x[::-1] for x in cur])[::-1] == root
+                snap = list(cur)
+                if blk.validate_merkle_root() is not want:
+                    return (f"round {rounds}: validate_merkle_root() of block {k} after an in-place edit of tx_hashes is "
+                            f"{not want}; the consensus root of the current list {'equals' if want else 'differs from'} the header root")
+                if cur != snap:
+                    return "validate_merkle_root changed tx_hashes"
+            cur[:] = ids
+            if blk.validate_merkle_root() is not True:
+                return f"round {rounds}: block {k} does not validate after its tx_hashes were restored"
+    return None
+
+
+PROPS = {"block_parse": p_block_parse, "block_parse_reser": p_block_parse, "block_stream": p_block_stream,
+         "root_ref": p_root_ref, "proof_complete": p_proof_complete, "proof_complete_spec": p_proof_complete_spec,
          "tamper": p_tamper, "total_forgery": p_total_forgery, "hashlen_split": p_hashlen_split,
          "bitfield_rt": p_bitfield_rt,
          "depth_formula": p_depth_formula, "compact_ref": p_compact_ref, "compact_rt": p_compact_rt,
@@ -1132,6 +1420,16 @@ def classify(v):
         return "K-C17-total"
     if name == "tamper" and a[4] == 2 and "not in the block" in v.get("detail", ""):
         return "K-C17-total"
+    if name == "block_parse_reser":
+        # exactly: the complaint names transaction i of the parsed block, that transaction holds a script buidl does not
+        # write back byte for byte (non-minimal push), and the wrong id is neither the wtxid nor a byte-order slip
+        import re
+        d = v.get("detail", "")
+        m = re.match(r"Block\.parse: (?:tx_hashes|txs)\[(\d+)\]", d)
+        if m and int(m.group(1)) < len(a[1]) and "wtxid" not in d.split(" but ")[-1] and "other byte order" not in d:
+            t = a[1][int(m.group(1))]
+            if any(not _script_pushes_canonical(x) for x in [i[2] for i in t[1]] + [o[1] for o in t[2]]):
+                return "K-C17-txid-reserialised"
     return None
 
 
@@ -1519,3 +1817,194 @@ def generate(ctx):
                 seq.append([3, r.choice([1, 2, 3, 4, 5, 8, 9, 1023, 1024, 1025, r.randrange(1, 3000)])])
         ctx.label("reuse/compact-order")
         yield ("prop", "compact_order", [seq])
+    # ---------------- whole blocks through Block.parse and every other entry point that feeds the Merkle code
+    yield from block_cases(ctx)
+
+
+# ------------------------------------------------------------------ hand-written transactions and blocks
+
+def _push(d):
+    """the one push encoding buidl writes back (and the minimal one): direct / OP_PUSHDATA1 / OP_PUSHDATA2"""
+    n = len(d)
+    assert 1 <= n <= 520
+    if n <= 75:
+        return bytes([n]) + d
+    if n < 0x100:
+        return b"\x4c" + bytes([n]) + d
+    return b"\x4d" + struct.pack("<H", n) + d
+
+
+def gen_spk(ctx, k=None):
+    r = ctx.rng
+    k = r.randrange(9) if k is None else k
+    if k == 0:
+        return b"\x76\xa9\x14" + ctx.rbytes(20) + b"\x88\xac"                  # p2pkh
+    if k == 1:
+        return b"\xa9\x14" + ctx.rbytes(20) + b"\x87"                          # p2sh
+    if k == 2:
+        return b"\x00\x14" + ctx.rbytes(20)                                    # p2wpkh
+    if k == 3:
+        return b"\x00\x20" + ctx.rbytes(32)                                    # p2wsh
+    if k == 4:
+        return b"\x51\x20" + ctx.rbytes(32)                                    # p2tr
+    if k == 5:
+        return b"\x6a" + _push(ctx.rbytes(r.choice([1, 20, 36, 75, 76, 80])))  # op_return data
+    if k == 6:
+        return b"\x51" + _push(b"\x02" + ctx.rbytes(32)) + _push(b"\x03" + ctx.rbytes(32)) + b"\x52\xae"   # bare 1-of-2
+    if k == 7:
+        return _push(b"\x02" + ctx.rbytes(32)) + b"\xac"                       # p2pk
+    return b""                                                                 # empty script
+
+
+def _sig(ctx):
+    return b"\x30" + ctx.rbytes(ctx.rng.choice([69, 70, 71])) + b"\x01"
+
+
+def gen_tx(ctx, kind):
+    """structured transaction of a named shape; scripts use canonical pushes only (see block_parse_reser for others)"""
+    r = ctx.rng
+    seq = lambda: r.choice([0xFFFFFFFF, 0xFFFFFFFF, 0xFFFFFFFE, 0xFFFFFFFD, 0, r.getrandbits(32)])
+    outs = lambda k: [[r.choice([0, 546, 50 * 10 ** 8, 21 * 10 ** 14, r.getrandbits(40)]), gen_spk(ctx)] for _ in range(k)]
+    ver = r.choice([1, 2, 2, r.getrandbits(32)])
+    lock = r.choice([0, 0, 500000, 499999999, 500000000, 1700000000, 0xFFFFFFFF])
+    pub = lambda: b"\x02" + ctx.rbytes(32)
+    redeem = lambda: b"\x52" + _push(pub()) + _push(pub()) + _push(pub()) + b"\x53\xae"     # 105 bytes: OP_PUSHDATA1
+    if kind == "L1":       # p2pkh spend
+        return [ver, [[ctx.rbytes(32), r.randrange(4), _push(_sig(ctx)) + _push(pub()), seq(), []]], outs(r.choice([1, 2])), lock, 0]
+    if kind == "Lm":       # several inputs: p2sh multisig, p2pkh, bare (empty scriptSig is for segwit only: use a 1-byte op)
+        ins = [[ctx.rbytes(32), r.getrandbits(16), b"\x00" + _push(_sig(ctx)) + _push(_sig(ctx)) + _push(redeem()), seq(), []],
+               [ctx.rbytes(32), 0, _push(_sig(ctx)) + _push(pub()), seq(), []],
+               [ctx.rbytes(32), 1, _push(ctx.rbytes(300)), seq(), []]][: r.choice([2, 3])]
+        return [ver, ins, outs(r.choice([1, 3])), lock, 0]
+    if kind == "Lc":       # legacy coinbase
+        ss = _push(struct.pack("<I", r.randrange(1, 900000))[:3]) + _push(ctx.rbytes(r.randrange(1, 40)))
+        return [ver, [[Z32, 0xFFFFFFFF, ss, 0xFFFFFFFF, []]], outs(r.choice([1, 2])), 0, 0]
+    if kind == "S1":       # p2wpkh spend
+        return [ver, [[ctx.rbytes(32), r.randrange(4), b"", seq(), [_sig(ctx), pub()]]], outs(r.choice([1, 2])), lock, 1]
+    if kind == "Sw":       # p2sh-p2wpkh + an input without witness (mixed inside one transaction)
+        ins = [[ctx.rbytes(32), 0, _push(b"\x00\x14" + ctx.rbytes(20)), seq(), [_sig(ctx), pub()]],
+               [ctx.rbytes(32), 3, _push(_sig(ctx)) + _push(pub()), seq(), []]]
+        r.shuffle(ins)
+        return [ver, ins, outs(2), lock, 1]
+    if kind == "St":       # taproot key path and script path
+        ins = [[ctx.rbytes(32), 0, b"", seq(), [ctx.rbytes(r.choice([64, 65]))]],
+               [ctx.rbytes(32), 1, b"", seq(), [ctx.rbytes(64), _push(ctx.rbytes(32)) + b"\xac", b"\xc0" + ctx.rbytes(32 + 32 * r.randrange(3))]]]
+        return [ver, ins[: r.choice([1, 2])], outs(1), lock, 1]
+    if kind == "Sm":       # p2wsh multisig
+        return [ver, [[ctx.rbytes(32), 0, b"", seq(), [b"", _sig(ctx), _sig(ctx), redeem()]]], outs(r.choice([1, 2])), lock, 1]
+    if kind == "Sc":       # segwit coinbase with the witness commitment output
+        ss = _push(struct.pack("<I", r.randrange(1, 900000))[:3]) + _push(ctx.rbytes(r.randrange(1, 30)))
+        o = [[625000000, gen_spk(ctx, 2)], [0, b"\x6a" + _push(b"\xaa\x21\xa9\xed" + ctx.rbytes(32))]]
+        return [ver, [[Z32, 0xFFFFFFFF, ss, 0xFFFFFFFF, [Z32]]], o, 0, 1]
+    if kind == "Se":       # BIP144 format although every witness stack is empty
+        return [ver, [[ctx.rbytes(32), 0, _push(_sig(ctx)) + _push(pub()), seq(), []] for _ in range(r.choice([1, 2]))], outs(1), lock, 1]
+    if kind == "Sb":       # long witness items / many items (CompactSize fd inside the witness)
+        w = [ctx.rbytes(r.choice([252, 253, 300, 1000]))] + [ctx.rbytes(r.randrange(0, 4)) for _ in range(r.choice([1, 253]))]
+        return [ver, [[ctx.rbytes(32), 0, b"", seq(), w]], outs(1), lock, 1]
+    raise ValueError(kind)
+
+
+LEGACY_KINDS = ["L1", "Lm", "Lc"]
+SEGWIT_KINDS = ["S1", "Sw", "St", "Sm", "Sc", "Se", "Sb"]
+
+
+def gen_block_txs(ctx, pattern):
+    """pattern: string over L (legacy) / S (segwit); the first transaction is a coinbase of that format"""
+    r = ctx.rng
+    txs = []
+    for i, c in enumerate(pattern):
+        if i == 0:
+            kind = "Lc" if c == "L" else "Sc"
+        else:
+            kind = r.choice(LEGACY_KINDS[:2] if c == "L" else SEGWIT_KINDS[:4] + SEGWIT_KINDS[5:])
+        txs.append(gen_tx(ctx, kind))
+    return txs
+
+
+def _block_patterns(ctx):
+    r = ctx.rng
+    pats = []
+    for n in list(range(1, 10)) + [16, 17]:
+        pats += ["L" * n, "S" * n]
+        if n > 1:
+            pats += ["S" + "L" * (n - 1), "L" * (n - 1) + "S", "".join("LS"[i & 1] for i in range(n)),
+                     "".join(r.choice("LS") for _ in range(n))]
+    for n in (3, 4, 5):                      # exactly one segwit transaction, at every position
+        pats += ["L" * i + "S" + "L" * (n - 1 - i) for i in range(n)]
+    for _ in range(ctx.n(4, 60)):
+        pats.append("".join(r.choice("LS") for _ in range(r.randrange(2, 40))))
+    return pats
+
+
+def block_cases(ctx):
+    r = ctx.rng
+    easy = bytes.fromhex("ffff7f20")
+
+    def fields():
+        f = rheader_fields(ctx, r.choice([easy, easy, bytes.fromhex("ffff001d")]))
+        return mine(ctx, f, tries=8) if f[4] == easy and r.random() < 0.5 else f
+
+    def emit(txs, label, pre=None, rest=None):
+        n = len(txs)
+        m = [r.random() < 0.5 for _ in range(n)]
+        if r.random() < 0.3:
+            m = [True] * n
+        pre = ctx.rbytes(r.choice([0, 0, 1, 7, 80])) if pre is None else pre
+        rest = ctx.rbytes(r.choice([0, 0, 1, 5])) if rest is None else rest
+        ctx.label("block/" + label)
+        yield ("prop", "block_parse", [fields(), txs, pre, rest, m])
+        # the model's view of the same block: root / validate over the independently computed txids
+        txids = [h256(ser_tx(t)[1]) for t in txs]
+        if n <= 40:
+            yield ("corr", "consensus_root", [txids])
+            yield ("corr", "validate_merkle_root", [ref_root(txids)[::-1], [x[::-1] for x in txids]])
+            wt = [h256(ser_tx(t)[0]) for t in txs]
+            yield ("corr", "validate_merkle_root", [ref_root(txids)[::-1], [x[::-1] for x in wt]])
+
+    for pat in _block_patterns(ctx):
+        n = len(pat)
+        kind = "legacy-only" if "S" not in pat else ("segwit-only" if "L" not in pat else "mixed")
+        yield from emit(gen_block_txs(ctx, pat), f"{kind}/{'odd' if n & 1 else 'even'}")
+    # every transaction shape alone in a block and as the last (duplicated on odd levels) of three
+    for kind in LEGACY_KINDS + SEGWIT_KINDS:
+        yield from emit([gen_tx(ctx, kind)], "shape/" + kind)
+        yield from emit([gen_tx(ctx, "Lc"), gen_tx(ctx, "L1"), gen_tx(ctx, kind)], "shape/" + kind)
+    # identical transactions (CVE-2012-2459 shapes): last two equal, all equal
+    for pat in ("LSS", "LLSS", "SLL", "SSSS"):
+        txs = gen_block_txs(ctx, pat)
+        txs[-1] = txs[-2]
+        yield from emit(txs, "duplicate-last")
+    t = gen_tx(ctx, "S1")
+    yield from emit([t] * 5, "duplicate-all")
+    # CompactSize boundary of the transaction count (0xfd form)
+    for n in ((252, 253) if ctx.tier == "quick" else (252, 253, 256, 600)):
+        txs = [gen_tx(ctx, "Sc")] + [gen_tx(ctx, r.choice(["L1", "S1"])) for _ in range(n - 1)]
+        yield from emit(txs, "count>=252")
+    # several blocks in one stream, objects kept and queried again
+    for _ in range(ctx.n(6, 40)):
+        blocks = [[fields(), gen_block_txs(ctx, "".join(r.choice("LS") for _ in range(r.randrange(1, 8))))]
+                  for _b in range(r.choice([2, 3]))]
+        ctx.label("block/stream")
+        yield ("prop", "block_stream", [blocks, ctx.rbytes(r.choice([0, 3])), r.getrandbits(30)])
+    # transactions whose scripts are NOT what buidl writes back (non-minimal push encodings; coinbase scriptSigs are
+    # arbitrary bytes): Tx.hash() hashes the re-serialisation of the parsed Script objects (K-C17-txid-reserialised)
+    for ss, spk in NONCANONICAL_SCRIPTS:
+        for pat in ("L", "LL", "SLL"):
+            txs = gen_block_txs(ctx, pat)
+            t = txs[-1]
+            if ss is not None:
+                t[1][0][2] = ss
+            if spk is not None:
+                t[2][0][1] = spk
+            ctx.label("block/non-canonical-push")
+            yield ("prop", "block_parse_reser", [fields(), txs, b"", b"", [True] * len(txs)])
+
+
+# (scriptSig, scriptPubKey) replacements; None = leave alone.  All are consensus-valid transaction encodings.
+NONCANONICAL_SCRIPTS = [
+    (b"\x4c\x03abc", None),                                     # OP_PUSHDATA1 for a 3-byte push
+    (b"\x03\x40\x0d\x03\x4d\x02\x00zz", None),                  # OP_PUSHDATA2 for a 2-byte push (after a height push)
+    (b"\x03\x40\x0d\x03\x4e\x02\x00\x00\x00zz", None),          # OP_PUSHDATA4
+    (b"\x4d\x50\x00" + b"\x07" * 0x50, None),                   # OP_PUSHDATA2 for 80 bytes (OP_PUSHDATA1 is written back)
+    (None, b"\x6a\x4c\x04\xde\xad\xbe\xef"),                    # OP_RETURN OP_PUSHDATA1 <4 bytes> in an output
+]
